@@ -72,6 +72,7 @@ def run(ctx: Ctx):
     run_models(ctx)
     run_surrogates(ctx)
     run_nan_samples(ctx)
+    run_sequential_loops(ctx)
 
 
 def run_models(ctx: Ctx):
@@ -265,3 +266,61 @@ def run_nan_samples(ctx: Ctx):
                             ctx.violate('C06:batch-dependence', f'sample {s}, {k}: {a} in the batch with a NaN sample, {b} alone', {**case, 'sample': s}); break
                 except Exception:
                     pass
+
+
+def run_sequential_loops(ctx: Ctx):
+    """two feedback loops in sequence (the second reads the first) plus a thresholding component downstream of both: a sample's result
+    must not depend on how many sweeps OTHER samples needed in the first loop, and non-converged samples must be NaN downstream even
+    when the downstream model would turn a NaN input into a finite output"""
+    from amisc import Component, System, Variable
+    rng = ctx.rng
+    for n in range(ctx.pick(10, 80)):
+        ga, gb = rng.choice([0.3, 0.6, 0.85]), rng.choice([0.3, 0.6, 0.85])
+        V = {k: Variable(k, domain=(-4.0, 4.0)) for k in ('a0', 'a1', 'b0', 'b1')}
+        xx = Variable('xx', domain=(0, 1)); t = Variable('t', domain=(-2, 2))
+
+        def fa0(inputs, _g=ga):
+            x_ = np.asarray(inputs['xx'], dtype=float)
+            # samples with xx < 0.5 have no feedback in the first loop (they converge at once), the others need many sweeps
+            return {'a0': np.where(x_ < 0.5, 0.0, _g) * np.tanh(np.asarray(inputs['a1'], dtype=float)) + x_}
+
+        def fa1(inputs, _g=ga):
+            return {'a1': _g * np.asarray(inputs['a0'], dtype=float) - 0.2}
+
+        def fb0(inputs, _g=gb):
+            return {'b0': _g * np.asarray(inputs['b1'], dtype=float) + 0.5 * np.asarray(inputs['a0'], dtype=float)}
+
+        def fb1(inputs, _g=gb):
+            return {'b1': _g * np.sin(np.asarray(inputs['b0'], dtype=float)) + 0.1}
+
+        def thr(inputs):
+            b = np.asarray(inputs['b0'], dtype=float)
+            return {'t': np.where(b > 0.3, 1.0, 0.0)}          # NaN > 0.3 is False: the model itself does not propagate NaN
+        comps = [Component(fa0, [xx, V['a1']], [V['a0']], name='A0', vectorized=True), Component(fa1, [V['a0']], [V['a1']], name='A1', vectorized=True),
+                 Component(fb0, [V['b1'], V['a0']], [V['b0']], name='B0', vectorized=True), Component(fb1, [V['b0']], [V['b1']], name='B1', vectorized=True),
+                 Component(thr, [V['b0']], [t], name='T', vectorized=True)]
+        system = System(*comps, name=f'sq{n}')
+        N = rng.randint(2, 6)
+        xs = {'xx': np.array([round(rng.random(), 5) for _ in range(N)])}
+        xs['xx'][0] = round(0.1 + 0.3 * rng.random(), 5); xs['xx'][-1] = round(0.6 + 0.3 * rng.random(), 5)   # one fast and one slow sample
+        maxit = rng.choice([1, 2, 3, 5, 8, 12, 20, 40]); amem = rng.choice([1, 1, 2, 10])
+        case = {'sequential_loops': n, 'gains': (ga, gb), 'xx': xs['xx'].tolist(), 'max_fpi_iter': maxit, 'anderson_mem': amem}
+        ctx.case(case, nontrivial=True, kind=f'two-loops:maxit={maxit}')
+        try:
+            y = system.predict(xs, use_model='best', max_fpi_iter=maxit, anderson_mem=amem, fpi_tol=FTOL)
+        except Exception as e:
+            ctx.violate('C06:predict-raises', f'{type(e).__name__}: {e}', case); continue
+        for s in range(N):
+            vals = {k: float(np.ravel(y[k])[s]) for k in y}
+            for loop, down in ((('a0', 'a1'), ('b0', 'b1', 't')), (('b0', 'b1'), ('t',))):
+                if any(vals[k] != vals[k] for k in loop):
+                    stale = [k for k in loop + down if vals[k] == vals[k]]
+                    if stale:
+                        ctx.violate('C06:stale-output-of-nonconverged-sample', f'sample {s}: loop {loop} did not converge but {stale} = '
+                                    f'{[vals[k] for k in stale]} (downstream of it)', {**case, 'sample': s})
+            ys = system.predict({'xx': xs['xx'][s:s + 1]}, use_model='best', max_fpi_iter=maxit, anderson_mem=amem, fpi_tol=FTOL)
+            for k in y:
+                a, b = vals[k], float(np.ravel(ys[k])[0])
+                if not ((a != a and b != b) or abs(a - b) <= 1e-10 * (1 + abs(a))):
+                    ctx.violate('C06:batch-dependence', f'sample {s}, {k}: {a} in the batch, {b} alone (two sequential loops, max_fpi_iter={maxit})',
+                                {**case, 'sample': s}); break
